@@ -18,7 +18,10 @@ import (
 	"verif/harness/common"
 )
 
-// esc <targethex> <svchex,svchex…|-> => web=<entry>:<tok> http=<entry>:<tok>
+// esc <targethex> <svchex,svchex…|-> [<methodhex>] => web=<entry>:<tok> http=<entry>:<tok>
+//
+// With a method token other than POST only the transcoded entry is judged by C14 (`web=` is reported but the property says
+// nothing about the method of a gRPC-Web request): ONLY the exact token POST is the gRPC-style HTTP form.
 //
 // The SAME request line (`POST <target> HTTP/1.1`, parsed by net/http) is served twice by the REAL root
 // grpcbridge.NewWebBridge over the real routing.ServiceRouter (one target "a" listing the given services, pooled):
@@ -71,8 +74,12 @@ type escForwarder struct{}
 func (escForwarder) Forward(context.Context, grpcadapter.ForwardParams) error { return nil }
 
 func execEsc(f []string) string {
-	if len(f) != 3 {
+	if len(f) != 3 && len(f) != 4 {
 		return "BADOP"
+	}
+	method := "POST" // optional 4th field: the method token of the request line (both requests)
+	if len(f) == 4 {
+		method = string(common.MustUnHex(f[3]))
 	}
 	target := string(common.MustUnHex(f[1]))
 	desc := &bridgedesc.Target{Name: "a"}
@@ -92,7 +99,7 @@ func execEsc(f []string) string {
 	bridge := grpcbridge.NewWebBridge(rt, grpcbridge.WithForwarder(escForwarder{}))
 	serve := func(ct string) string {
 		req, err := http.ReadRequest(bufio.NewReader(strings.NewReader(
-			"POST " + target + " HTTP/1.1\r\nHost: h\r\nContent-Type: " + ct + "\r\nContent-Length: 0\r\n\r\n")))
+			method + " " + target + " HTTP/1.1\r\nHost: h\r\nContent-Type: " + ct + "\r\nContent-Length: 0\r\n\r\n")))
 		if err != nil {
 			return "R"
 		}
@@ -109,6 +116,8 @@ var escTargets = []string{
 	"/p%25S/M", "/p.S/M+x", "/p.S/M;v=1", "/p.S/M:verb", "/p.S/M%3Averb",
 }
 
+var escMethods = []string{"post", "Post", "pOST", "POSt", "POSTS", "POS", "XPOST", "POST", "GET", "PUT", "HEAD", "DELETE", "PATCH", "OPTIONS"}
+
 func genEsc(r *rand.Rand, tier string, emit func(string)) {
 	svcSets := [][]string{{"p.S"}, {"p.S", "p%2ES", "p.S/M", "p%S"}, nil}
 	line := func(t string, svcs []string) {
@@ -122,9 +131,28 @@ func genEsc(r *rand.Rand, tier string, emit func(string)) {
 		}
 		emit("esc " + common.HexS(t) + " " + l)
 	}
+	lineM := func(t string, svcs []string, m string) {
+		l := "-"
+		if len(svcs) > 0 {
+			hs := make([]string, len(svcs))
+			for i, s := range svcs {
+				hs[i] = common.HexS(s)
+			}
+			l = strings.Join(hs, ",")
+		}
+		emit("esc " + common.HexS(t) + " " + l + " " + common.HexS(m))
+	}
 	for _, t := range escTargets {
 		for _, s := range svcSets {
 			line(t, s)
+		}
+	}
+	// method tokens: equal to POST only up to case, near-misses, other standard methods (seeded change C14-m12)
+	for _, m := range escMethods {
+		for _, t := range []string{"/p.S/M", "/nobody/M", "/p%2ES/M", "/p.S"} {
+			for _, s := range svcSets[:2] {
+				lineM(t, s, m)
+			}
 		}
 	}
 	n := 150
@@ -151,6 +179,10 @@ func genEsc(r *rand.Rand, tier string, emit func(string)) {
 				sb.WriteByte(base[j])
 			}
 		}
-		line(sb.String(), svcSets[r.Intn(len(svcSets))])
+		if r.Intn(4) == 0 {
+			lineM(sb.String(), svcSets[r.Intn(len(svcSets))], common.Pick(r, escMethods))
+		} else {
+			line(sb.String(), svcSets[r.Intn(len(svcSets))])
+		}
 	}
 }
